@@ -827,7 +827,134 @@ pub fn selftest_executor(n: u64) -> i32 {
         }
     }
     println!("executor model: {n} workloads x (sequential, real rayon 1/3/8, 3 simulated pools), mismatches={bad}");
-    if bad > 0 { 2 } else { 0 }
+    let fb = selftest_facade(40);
+    if bad > 0 || fb > 0 { 2 } else { 0 }
+}
+
+/// The `SimVec` facade shadows more of rayon's API than the library uses
+/// today (so that a change of the fan-out idiom stays on the simulated path):
+/// every shadowed method must agree with its sequential meaning, with and
+/// without a simulator installed.
+fn selftest_facade(n: u64) -> u64 {
+    use crate::rt::RunState;
+    use fidget_core::verif::SimVec;
+    let mut bad = 0u64;
+    for i in 0..n {
+        let r = rt::on_fresh_thread(7000 + i, move || {
+            let st: Shared = std::rc::Rc::new(std::cell::RefCell::new(
+                RunState::new(Chooser::search(crate::chooser::mix(0xFACA, i))),
+            ));
+            let len = (i % 23) as usize;
+            let data: Vec<u64> = (0..len as u64).map(|k| k * 7 + 3).collect();
+            let mut errs: Vec<String> = vec![];
+            for mode in 0..3 {
+                // 0: no simulator (real rayon), 1: simulated, 2: simulated + preemptive
+                if mode > 0 {
+                    st.borrow_mut().pool = Some(draw_pool(&st));
+                    st.borrow_mut().preempt = mode == 2;
+                    rt::install(&st);
+                }
+                let v = || SimVec::new(data.clone());
+                let seq: Vec<u64> = data.iter().map(|x| x * 2).collect();
+                let mut chk = |name: &str, ok: bool| {
+                    if !ok {
+                        errs.push(format!("{name} (mode {mode}, len {len})"));
+                    }
+                };
+                let a: Vec<u64> = v().into_par_iter().map(|x| x * 2).collect();
+                chk("map.collect", a == seq);
+                let a: Vec<u64> = v().par_iter().map(|x| *x * 2).collect();
+                chk("par_iter.map.collect", a == seq);
+                let a: Vec<u64> = v()
+                    .into_par_iter()
+                    .map_with(1u64, |s, x| {
+                        *s += 1;
+                        x * 2
+                    })
+                    .collect();
+                chk("map_with.collect", a == seq);
+                let a: Vec<(usize, u64)> =
+                    v().into_par_iter().enumerate().map(|(k, x)| (k, x)).collect();
+                chk(
+                    "enumerate",
+                    a.iter().enumerate().all(|(k, (j, x))| k == *j && *x == data[k]),
+                );
+                let a: Vec<u64> = v()
+                    .into_par_iter()
+                    .with_min_len(2)
+                    .map_init(|| 0u64, |_, x| x)
+                    .map(|x| x * 2)
+                    .collect();
+                chk("map_init.map.collect", a == seq);
+                let a: Result<Vec<u64>, u64> = v()
+                    .into_par_iter()
+                    .map(|x| if x % 5 == 4 { Err(x) } else { Ok(x) })
+                    .collect();
+                let has_bad = data.iter().any(|x| x % 5 == 4);
+                chk("collect result", a.is_err() == has_bad);
+                let a: Vec<Result<u64, u64>> = v()
+                    .into_par_iter()
+                    .map(|x| if x % 5 == 4 { Err(x) } else { Ok(x) })
+                    .collect();
+                chk("collect vec of results visits all", a.len() == len);
+                let sum = std::sync::atomic::AtomicU64::new(0);
+                v().into_par_iter().for_each(|x| {
+                    sum.fetch_add(x, std::sync::atomic::Ordering::Relaxed);
+                });
+                chk(
+                    "for_each",
+                    sum.into_inner() == data.iter().sum::<u64>(),
+                );
+                let sum = std::sync::atomic::AtomicU64::new(0);
+                v().par_iter().for_each_init(
+                    || 0u8,
+                    |_, x| {
+                        sum.fetch_add(*x, std::sync::atomic::Ordering::Relaxed);
+                    },
+                );
+                chk(
+                    "for_each_init",
+                    sum.into_inner() == data.iter().sum::<u64>(),
+                );
+                let r: Option<()> = v()
+                    .into_par_iter()
+                    .try_for_each(|x| if x % 5 == 4 { None } else { Some(()) });
+                chk("try_for_each", r.is_none() == has_bad);
+                let r = v().into_par_iter().map(|x| x).reduce(|| 0, |a, b| a + b);
+                chk("reduce", r == data.iter().sum::<u64>());
+                chk("count", v().into_par_iter().map(|x| x).count() == len);
+                let mut a: Vec<u64> =
+                    v().into_iter().par_bridge().map(|x| x * 2).collect();
+                a.sort();
+                chk("par_bridge.map.collect", a == seq);
+                let a: Vec<u64> = v()
+                    .par_chunks(3)
+                    .map(|c| c.iter().sum::<u64>())
+                    .collect();
+                let b: Vec<u64> = data.chunks(3).map(|c| c.iter().sum()).collect();
+                chk("par_chunks", a == b);
+                chk("deref", v().len() == len && v().iter().count() == len);
+                if mode > 0 {
+                    rt::uninstall();
+                    st.borrow_mut().preempt = false;
+                }
+            }
+            errs
+        });
+        match r {
+            Ok(e) if e.is_empty() => (),
+            Ok(e) => {
+                eprintln!("FACADE-MISMATCH seed {i}: {e:?}");
+                bad += 1;
+            }
+            Err(e) => {
+                eprintln!("facade selftest run {i} aborted: {e}");
+                bad += 1;
+            }
+        }
+    }
+    println!("executor facade: {n} seeds x 3 modes x 16 shadowed rayon idioms, mismatches={bad}");
+    bad
 }
 
 pub fn exec(
